@@ -167,9 +167,19 @@ CHECKS.update({
 # thorough tiers that were run end to end in this sandbox (the others are registered quick-only)
 THOROUGH_OK = set()
 
+CHECKS.update({
+    'C12': dict(
+        text='Decided in its first-order form: for conservative generator models the acceleration state.qdd that the REAL generalized.pipeline.step uses (through the exact solve) '
+             'makes the first-order term of the drift vanish identically:  qd . (M_ref qdd + c_ref - passive_ref) == 0  (energy, with the first-principles reference mechanics '
+             'validated against mujoco every run) and  sum_b m_b a_b == (sum m) g  (linear momentum, free-floating models), for ALL velocities, root positions and slide coordinates; '
+             'and the step increments qd by dt*qdd. A non-vanishing first-order term would make the drift over a fixed horizon O(1) (not halving with dt).',
+        note='The bridge "first-order term vanishes => O(dt) drift over a fixed horizon" is textbook consistency, stated, not checked; the 0.05-0.1 s horizon itself and second-order terms are '
+             'outside. Position-update consistency of the integrator (incl. the free-joint quaternion) is decided in C02. Tier B configurations; models: pendulum with a slide on a rotated body, '
+             'double pendulum, free body, free root + hinge, two disconnected trees.',
+        technique='symbolic execution of jaxprs; QF_NRA identity against a first-principles mechanics reference (time-jets)', design='C12'),
+})
+
 NOT_APPLICABLE = {
-    'C12': 'needs a reference mechanical energy / momentum built from an independent mechanics oracle (first-principles spec of DESIGN section C02/C12), which was not '
-           'built in this deliverable; a first-order consistency query without that oracle would compare brax with itself (DESIGN.md section 6.2)',
     'C16': 'whole-program finiteness of 11 environments over 200-1000-step histories with contact switching and float overflow: '
            'outside what a bounded real-arithmetic encoding can decide (DESIGN.md section 3)',
 }
